@@ -22,6 +22,7 @@ CONSTANTS
   MaxNALs = %(nals)d
   MaxNALs265 = %(nals265)d
   EmitLen = %(emit)d
+  DevH265UpdaterComparesStored = FALSE
 INVARIANTS DesignAgrees EmitCases
 CHECK_DEADLOCK FALSE
 """
